@@ -69,7 +69,9 @@ RULE = ("problems: 0-40 vertices (0-3 units of 1-3 resources, some needing nothi
         "clause; a small out-of-domain stream (correspondence only). Each problem is run through sequential (default and "
         "custom orders), breadth-first, Hilbert (both modes), RCM, random, annealing with the Python kernel (recorded "
         "step by step) and the C kernel. A case is non-trivial when at least one placer returned a placement of >= 2 "
-        "vertices on a machine with >= 2 working chips and the problem has at least one constraint")
+        "vertices on a machine with >= 2 working chips and the problem has at least one constraint; plus whole anneals (unbounded "
+        "number of temperatures) of one net of weight 100 among a ring of nets of weight 0.01 on machines 8x8..12x12 "
+        "(thorough: up to 24x24, 62 vertices)")
 
 DOCUMENTED = ("InsufficientResourceError", "InvalidConstraintError")
 
@@ -774,13 +776,33 @@ def hilbert_checks(ctx):
     ctx.tag("hilbert-generator-checked")
 
 
+def gen_hetero(rng, size, ring):
+    """whole-run annealing problem with strongly heterogeneous net weights: one net of weight 100 among a ring of
+    nets of weight 0.01 on a large machine of single-unit chips (late in such an anneal the temperature has collapsed
+    while the heavy net is still being pulled together: strongly improving swaps at very low temperatures)"""
+    n = ring + 2
+    vr = [[v, [1], [True]] for v in range(n)]
+    nets = [[0, [1], 100.0]] + [[2 + i, [2 + (i + 1) % ring], 0.01] for i in range(ring)]
+    working = [(x, y) for x in range(size) for y in range(size)]
+    vo = list(range(n))
+    rng.shuffle(vo)
+    co = list(working)
+    rng.shuffle(co)
+    return {"w": size, "h": size, "res": [1], "exc": [], "dead": [], "vr": vr, "nets": nets, "cs": [],
+            "ood": False, "unit": False, "vo": vo, "co": [list(c) for c in co],
+            "seeds": [rng.randrange(2 ** 30) for _ in range(4)], "effort": 1.0, "max_temps": None,
+            "hilbert_bf": rng.random() < 0.5, "unit_r0": 0}
+
+
 from harness import c02_orders
+from harness import c02_kernel
 THEOREMS = THEOREMS + c02_orders.THEOREMS_ORDERS
-CLAIM = dict(CLAIM, text=CLAIM["text"] + " " + c02_orders.CLAIM_ORDERS, note=CLAIM["note"] + " " + c02_orders.NOTE_ORDERS)
+CLAIM = dict(CLAIM, text=CLAIM["text"] + " " + c02_orders.CLAIM_ORDERS + " " + c02_kernel.CLAIM_KERNEL,
+             note=CLAIM["note"] + " " + c02_orders.NOTE_ORDERS)
 
 
 def run(ctx):
-    ctx.extra["rule"] = RULE + " " + c02_orders.RULE_ORDERS
+    ctx.extra["rule"] = RULE + " " + c02_orders.RULE_ORDERS + " " + c02_kernel.RULE_KERNEL
     hilbert_checks(ctx)
     c02_orders.run_orders(ctx)
     ctx.extra["trusted_base"] = ["rig_c_sa (compiled annealing kernel outside /repo): opaque, checked only by the Feasible oracle",
@@ -808,11 +830,20 @@ def run(ctx):
             probs.append(gen_problem(rng, big=big))
     for i in range(0, len(probs), 100):
         eval_problems(ctx, probs[i:i + 100])
+    # whole anneals (no bound on the number of temperatures) with strongly heterogeneous net weights
+    hetero = [gen_hetero(rng, rng.choice([8, 10, 12]), rng.choice([16, 24])) for _ in range(2)] if ctx.quick else \
+        [gen_hetero(rng, rng.choice([12, 16, 20, 24, 24]), rng.choice([30, 40, 60, 60])) for _ in range(12)]
+    for prob in hetero:
+        ctx.tag("hetero-weights-problem")
+        eval_problems(ctx, [prob])
+    c02_kernel.run_kernel(ctx)
 
 
 def replay(ctx, payload):
     ctx.extra["rule"] = RULE
     case = payload["case"]
+    if "kernel" in case:
+        return c02_kernel.replay_kernel(ctx, payload)
     if "orders" in case or "orders-fixed" in case:
         return c02_orders.replay_orders(ctx, payload)
     eval_problems(ctx, [case["problem"]])
